@@ -31,9 +31,13 @@ func (s *Spec) Compile(ctx *rx.Ctx) *lexref.Lexer {
 			for _, a := range r.Actions {
 				switch a.Kind {
 				case APush:
-					act.Push = modeIdx[a.Arg]
+					if act.Push < 0 {
+						act.Push = modeIdx[a.Arg]
+					}
+					act.Ops = append(act.Ops, lexref.ModeOp{Push: modeIdx[a.Arg]})
 				case APop:
 					act.Pop = true
+					act.Ops = append(act.Ops, lexref.ModeOp{Push: -1})
 				case AEmit:
 					act.Emit = tokType[a.Arg]
 				case ADiscard:
